@@ -410,7 +410,16 @@ def run(ctx):
                 outs[kind] = None
             else:
                 outs[kind] = r['out'].decode('utf-8', 'replace').split('\n')[:-1]
-        if outs['gcc'] is None or outs['clang'] is None:
+        refs = [k for k in ('gcc', 'clang') if outs[k] is not None]
+        for k in ('gcc', 'clang'):
+            if outs[k] is None:
+                et = res[k]['err'].decode('utf-8', 'replace') if isinstance(res[k]['err'], bytes) else str(res[k]['err'])
+                if 'internal compiler error' in et or 'Please submit a full bug report' in et or 'PLEASE submit a bug report' in et:
+                    # the reference compiler itself crashed on this unit (seen with gcc 12 on one unit in 150 000): the model and the other reference still decide
+                    ctx.count('reference_compiler_crashed')
+                else:
+                    refs = []
+        if not refs:
             raise core.Inconclusive('reference compiler failed on a generated TU: %s' % (res['gcc']['err'][-300:] + res['clang']['err'][-300:]))
         x = res['chibicc']
         if outs['chibicc'] is None:
@@ -420,7 +429,7 @@ def run(ctx):
                           script='$CHIBICC -I$VERIF/rt -c -o tu.o tu.c || exit 1; gcc -I$VERIF/rt -c -w vals.c -o vals.o && gcc -o tu.exe tu.o vals.o $RT && ./tu.exe > /dev/null || exit 1; exit 0')
             continue
         bad_ids = set()
-        for kind in ('gcc', 'clang'):
+        for kind in refs:
             if len(outs[kind]) != len(exp):
                 raise core.Inconclusive('%s produced %d lines, expected %d' % (kind, len(outs[kind]), len(exp)))
             for ln, (a, b) in enumerate(zip(outs[kind], exp)):
